@@ -1,5 +1,5 @@
 #!/usr/bin/env bash
-# sensitivity.sh [--tests] [patch files...]
+# sensitivity.sh [--tests] [--expect-held] [patch files...]
 # Build-phase activity (DESIGN §3.9), not a registered check. For each patch:
 # apply it to a scratch copy of /repo, run the matching check from a scratch copy
 # of /verif that points at the scratch repo, expect exit 1 + a VIOLATION line whose
@@ -10,8 +10,11 @@
 set -u
 VERIF="$(cd "$(dirname "${BASH_SOURCE[0]}")/.." && pwd)"
 REPO="${CKC_REPO:-/repo}"
-TESTS=0
-if [ "${1:-}" = "--tests" ]; then TESTS=1; shift; fi
+TESTS=0; EXPECT=caught
+while [ $# -gt 0 ]; do case "$1" in
+  --tests) TESTS=1; shift;;
+  --expect-held) EXPECT=held; shift;;   # for changes under which the property still holds: any alarm is a false alarm
+  *) break;; esac; done
 if [ $# -eq 0 ]; then set -- "$VERIF"/mutants/*.diff; fi
 SCR="$(mktemp -d "${TMPDIR:-/tmp}/ckc-sens.XXXXXX")"
 trap 'rm -rf "$SCR"' EXIT
@@ -31,6 +34,7 @@ for patch in "$@"; do
     name="$(basename "$(dirname "$patch")")"
     [ -f "$meta" ] && prop="$(jq -r '.property' "$meta")"
   fi
+  [ -n "${PROP_OVERRIDE:-}" ] && prop="$PROP_OVERRIDE"
   [ -n "$prop" ] || { echo "$name: cannot tell which property"; fail=1; continue; }
   if ! git -C "$SCR/repo" apply "$patch" 2>"$SCR/apply.err"; then
     printf '%-44s %-5s %-8s\n' "$name" "$prop" "NOAPPLY"; fail=1; continue
@@ -47,9 +51,12 @@ for patch in "$@"; do
     if [ $? -eq 1 ] && grep -q 'reproduces the recorded violation exactly (class, step, digest): yes' "$SCR/replay.log"; then rp=yes; else rp=NO; fail=1; fi
   elif [ $rc -eq 2 ]; then
     verdict=HARNESS; class="$(grep -m1 HARNESS-ERROR "$SCR/check.log" | cut -c1-150)"; fail=1
+  elif [ $rc -eq 0 ]; then
+    [ "$EXPECT" = held ] && verdict=held || fail=1
   else
     fail=1
   fi
+  [ "$EXPECT" = held ] && [ "$verdict" = caught ] && { verdict=FALSE-ALARM; fail=1; }
   suite="-"
   if [ $TESTS -eq 1 ]; then
     if (cd "$SCR/repo" && CARGO_TARGET_DIR="$SCR/testtarget" cargo test --offline --quiet --workspace --no-fail-fast) >"$SCR/test.log" 2>&1; then suite=green; else suite=red; fi
